@@ -218,6 +218,10 @@ def run_real(hmod, params, ms_real, inputs, choices):
         err = 'assumption-violated'
     except Exception as ex:   # the real code raised where the harness did not expect it
         err = f"{type(ex).__name__}: {ex}"
+        tb = traceback.extract_tb(ex.__traceback__)
+        if any('/mofun/' in f.filename and f.filename.startswith(loader.REPO) for f in tb):
+            # raised inside (or below) mofun's own code on a concrete input: that is behaviour of the code under test
+            err = 'mofun-raised: ' + err
         ctx.failed.append(('exception', err))
     return ctx.failed, ctx.observed, err
 
@@ -347,7 +351,7 @@ def run_instance(args):
                 mism = [k for k in sym_obs if k in obs and not _same(_jsonable(sym_obs[k]), obs[k])]
                 if err == 'assumption-violated':
                     res['xval_thin'] += 1
-                elif fl and not thin and not err and opts.get('ieee_violations', True):
+                elif fl and not thin and (not err or err.startswith('mofun-raised: ')) and opts.get('ieee_violations', True):
                     # the path is proved over the reals, yet the IEEE execution of the REAL code on a witness that sits at least
                     # 1e-6 inside every decided comparison fails an obligation: a concrete, replayed violation of the property
                     # (rounding-dependent behaviour of the implementation), reported as such
